@@ -47,6 +47,7 @@ use self::printer::{PrintDelimiter, Printer};
 use self::printf::Printf;
 use self::prune::PruneMatcher;
 use self::quit::QuitMatcher;
+pub use self::regex::RegexType;
 use self::regex::RegexMatcher;
 use self::samefile::SameFileMatcher;
 use self::size::SizeMatcher;
@@ -445,8 +446,6 @@ fn build_matcher_tree(
 ) -> Result<(usize, Box<dyn Matcher>), Box<dyn Error>> {
     let mut top_level_matcher = ListMatcherBuilder::new();
 
-    let mut regex_type = regex::RegexType::default();
-
     // can't use getopts for a variety or reasons:
     // order of arguments is important
     // arguments can start with + as well as -
@@ -534,7 +533,9 @@ fn build_matcher_tree(
                     return Err(From::from(format!("missing argument to {}", args[i])));
                 }
                 i += 1;
-                regex_type = regex::RegexType::from_str(args[i])?;
+                // Positional: applies to every -regex/-iregex after it, also inside and
+                // after parentheses, so it lives in the config and not in this call.
+                config.regex_type = RegexType::from_str(args[i])?;
                 Some(TrueMatcher.into_box())
             }
             "-regex" => {
@@ -542,14 +543,14 @@ fn build_matcher_tree(
                     return Err(From::from(format!("missing argument to {}", args[i])));
                 }
                 i += 1;
-                Some(RegexMatcher::new(regex_type, args[i], false)?.into_box())
+                Some(RegexMatcher::new(config.regex_type, args[i], false)?.into_box())
             }
             "-iregex" => {
                 if i >= args.len() - 1 {
                     return Err(From::from(format!("missing argument to {}", args[i])));
                 }
                 i += 1;
-                Some(RegexMatcher::new(regex_type, args[i], true)?.into_box())
+                Some(RegexMatcher::new(config.regex_type, args[i], true)?.into_box())
             }
             "-type" => {
                 if i >= args.len() - 1 {
